@@ -230,11 +230,13 @@ class CsInfo(TlvModel):
     n_misses = UintField(0x82)
 
 
-def make_command(module, command, face: Face | None = None, **kwargs):
+def make_command(module, command, face: Face | None = None, command_timestamp: int | None = None, **kwargs):
     ret = make_command_v2(module, command, face, **kwargs)
 
     # Timestamp and nonce
-    ret.append(Component.from_bytes(struct.pack('!Q', timestamp())))
+    if command_timestamp is None:
+        command_timestamp = timestamp()
+    ret.append(Component.from_bytes(struct.pack('!Q', command_timestamp)))
     ret.append(Component.from_bytes(struct.pack('!Q', gen_nonce_64())))
 
     # SignatureInfo
